@@ -79,6 +79,7 @@ type Engine struct {
 	overlay        map[string][]byte
 	pureNames      map[string]bool
 	pureCache      sync.Map
+	pdomCache      sync.Map
 	loadSeconds    float64
 }
 
